@@ -29,7 +29,9 @@ var c07Parts = []string{"a", "A", "b", "0", "01", "a/b", "a~b", "a.b", "a b", " 
 	// all-digit keys beyond the int64 / uint64 range (a numeric part is a map key too, not only a list index)
 	"9223372036854775808", "18446744073709551616",
 	// an escape next to characters outside ASCII (byte-wise decoders), a character outside the BMP
-	"\u00e9/b", "\u00e9~", "\U0001d518/"}
+	"\u00e9/b", "\u00e9~", "\U0001d518/",
+	// keys that a file-path cleaner would drop or resolve (a pointer is not a file path)
+	".", "..", "..."}
 
 func identOK(s string) bool {
 	if s == "" {
